@@ -68,7 +68,6 @@ def splitRegexCRLF : Text → List Str
 inductive Err
   | fileNotFound        -- FileNotFoundError
   | invalidParameters   -- ciscoconfparse2.errors.InvalidParameters
-  | typeError           -- TypeError
 deriving Repr, DecidableEq
 
 /-- the `config` argument of the constructor -/
@@ -77,7 +76,7 @@ inductive Input
   | list (ls : List Str)
   | tuple (ls : List Str)
   | str (s : Str)
-  | path (p : Path)            -- a `pathlib.Path`
+  | path (p : Path)            -- a `pathlib.Path`, given by its `str()`
 deriving Repr, DecidableEq
 
 /-- what `read_config` hands on -/
@@ -95,18 +94,22 @@ def readConfigFile (fs : Path → Option Text) (p : Path) : Except Err (List Str
   | Option.none => .error .fileNotFound
   | some raw => .ok (fileLines raw)
 
-/-- `read_config(config)` -/
+/-- `read_config` on a `str`: the number of lines `splitlines` finds decides -/
+def readStr (fs : Path → Option Text) (s : Str) : Except Err Read :=
+  let n := (splitlines s).length
+  if n = 1 then (readConfigFile fs s).map .lines
+  else if n > 1 then .ok (.lines (splitlines s))
+  else .ok (.rawStr s)
+
+/-- `read_config(config)`.  A `pathlib.Path` is first converted with `str()` (repo commit 373e51f,
+finding F91), so `.path p` carries the text `str(path)` (never empty: `str(Path(""))` is `"."`)
+and is read exactly like that string. -/
 def readConfig (fs : Path → Option Text) : Input → Except Err Read
   | .none => .ok (.lines [])
   | .list ls => .ok (.lines ls)
   | .tuple ls => .ok (.lines ls)
-  | .path _ => .error .typeError          -- `len(config)` on a `pathlib.Path` raises (finding F91); once
-                                          -- notes/proposed-fixes/C09-1.patch is in, this arm reads like `.str p`
-  | .str s =>
-    let n := (splitlines s).length
-    if n = 1 then (readConfigFile fs s).map .lines
-    else if n > 1 then .ok (.lines (splitlines s))
-    else .ok (.rawStr s)
+  | .path p => readStr fs p
+  | .str s => readStr fs s
 
 /-- `handle_ccp_brace_syntax` for the indentation syntaxes: only its type guard
 (`isinstance(tmp_lines, (list, tuple))`) matters; `check_ccp_input_good` accepts every sequence -/
